@@ -95,6 +95,34 @@ class Fixture:
                 if rc != CIF_OK:
                     raise Mismatch('fixture:add_packet:%d' % rc, 'fixture')
                 self.packets.append(pk)
+        # bystanders: another block and a save frame of it hold loops of the very same item names and as many packets
+        # (so their packets bear the same internal numbers); nothing done through the iterator may touch them
+        rc, self.b2 = L.create_block(self.cif, 'bystander')
+        rc, self.f2 = L.create_frame(self.b2, 'fr')
+        for cont, tag in ((self.b2, 'B'), (self.f2, 'F')):
+            if npk == 'scalar':
+                for n in self.names:
+                    v = L.make_value(('char', '%s1_%s_%d' % (tag, n, serial), True))
+                    rc = L.set_value(cont, n, v)
+                    L.value_free(v)
+                    if rc != CIF_OK:
+                        raise Mismatch('fixture:set_value(bystander):%d' % rc, 'fixture')
+            else:
+                rc, lx = L.create_loop(cont, 'c', self.names)
+                if rc != CIF_OK:
+                    raise Mismatch('fixture:create_loop(bystander):%d' % rc, 'fixture')
+                for r in range(len(self.packets)):
+                    rc, p = L.packet_create(self.names)
+                    for nm in self.names:
+                        v = L.make_value(('char', '%s%d_%s_%d' % (tag, r + 1, nm, serial), True))
+                        L.packet_set(p, nm, v)
+                        L.value_free(v)
+                    rc = L.loop_add_packet(lx, p)
+                    L.packet_free(p)
+                    if rc != CIF_OK:
+                        raise Mismatch('fixture:add_packet(bystander):%d' % rc, 'fixture')
+                L.loop_free(lx)
+        self.bystanders0 = self.bystanders()
         # a second loop supplies the "foreign" item
         rc, l2 = L.create_loop(self.b, 'other', ['_foreign'])
         rc, p = L.packet_create(['_foreign'])
@@ -110,11 +138,18 @@ class Fixture:
         d = D.dump_loop(self.L, self.loop)
         return sorted(d[2], key=repr)
 
+    def bystanders(self):
+        return D.dump_container(self.L, self.b2)
+
     def release(self):
         L = self.L
         if self.loop:
             L.loop_free(self.loop)
         L.container_free(self.b)
+        if getattr(self, 'f2', None):
+            L.container_free(self.f2)
+        if getattr(self, 'b2', None):
+            L.container_free(self.b2)
         L.destroy(self.cif)
 
 
@@ -279,6 +314,12 @@ def run_script(ctx, L, shape, script, fin, serial):
         if got != want:
             raise Mismatch('state:after-%s:content' % fin,
                            'after script %s + %s the loop holds %s; expected %s' % (script, fin, D._short(got, 300), D._short(want, 300)))
+        by = fx.bystanders()
+        if by != fx.bystanders0:
+            raise Mismatch('state:after-%s:bystander-containers' % fin,
+                           'after script %s + %s another data block / save frame with a loop of the same item names changed: %s'
+                           % (script, fin, D.first_difference(by, fx.bystanders0)))
+        ctx.count('bystander_comparisons')
         if not want:
             rc, it2 = L.loop_get_packets(fx.loop)
             if rc != CIF_EMPTY_LOOP:
